@@ -161,9 +161,23 @@ func VerifMergeRegionLists() {
 	p := PageID(verifU64("p"))
 	pre := verifOr(listHas(a, p), listHas(b, p))
 	total := a.CountPages() + b.CountPages()
+	a0 := append(regionList(nil), a...)
+	b0 := append(regionList(nil), b...)
 	m := mergeRegionLists(a, b)
 	listInv(m, total, "merged list")
 	verifAssert(listHas(m, p) == pre, "merged list is the union")
+	// the result is a list of its own: the commit code trims it in place (releaseOverflowPages)
+	// while the inputs remain the live free lists until the commit has succeeded
+	for k := range m {
+		m[k].count = 0
+		m[k].id = 0
+	}
+	for k := range a {
+		verifAssert(a[k] == a0[k], "changing the merged list does not change the first input list")
+	}
+	for k := range b {
+		verifAssert(b[k] == b0[k], "changing the merged list does not change the second input list")
+	}
 	verifReach("end")
 }
 
